@@ -1254,7 +1254,9 @@ def replay_cmd(text, d):
 
 
 def spec_verdict(spec):
-    return spec is not None and not (spec.startswith("ERR") or spec in ("OUT", "E STUCK"))
+    """the SPEC prescribes an observable outcome: not out of fuel / outside the fragment, and no unspecified value
+    (the value of set!, define, one-armed if) inside the result"""
+    return spec is not None and not (spec.startswith("ERR") or spec in ("OUT", "E STUCK") or "#<void>" in spec)
 
 
 def judge(ctx, plan, d, viols, label="C03", count=True):
@@ -1573,11 +1575,12 @@ def run(ctx):
         fam = [fam[i] for i in sorted(rng.sample(range(len(fam)), min(240, len(fam))))]
     core_keys = set(k for k, _ in fam) | set(k for k, _ in FIXED_CASES)
     progs += fam
-    progs += rest_family(rng, 4 if q else None)
-    progs += capture_pos_family(rng, 130 if q else None)
-    progs += fwd_family(rng, 160 if q else None)
-    progs += toplevel_family(rng, 120 if q else 3000)
-    progs += chain_family(rng, 60 if q else None)
+    if not os.environ.get("VERIF_C03_NO_FAMILIES"):        # (self-test knob: without them the targeted search must do the work)
+        progs += rest_family(rng, 4 if q else None)
+        progs += capture_pos_family(rng, 130 if q else None)
+        progs += fwd_family(rng, 160 if q else None)
+        progs += toplevel_family(rng, 120 if q else 3000)
+        progs += chain_family(rng, 60 if q else None)
     nrand = 500 if q else 20000
     for i in range(nrand):
         g = Gen(rng, derived=(i % 2 == 1))
